@@ -6,7 +6,7 @@ from common import cN, cZ, cnat, cbool, clist, copt, cpair
 
 # 'stats' is a substring of 'batch_stats' and 'count' of 'counter': a filter given as one name must not match by containment
 COLS = ['params', 'batch_stats', 'cache', 'intermediates', 'perturbations', 'counter', 'aux', 'stats', 'count']
-COLCODE = {c: i for i, c in enumerate(COLS)}
+COLCODE = {c: i for i, c in enumerate(sorted(COLS))}     # interned in alphabetical order (Model/Bridge.v sorts collections like jax.tree_map sorts dict keys)
 STREAMS = ['params', 'dropout', 'noise']
 NAMES = ['w', 'b', 'k', 'mean', 'count', 'h', 'sub', 'inner', 'blk']
 NAMECODE = {n: i for i, n in enumerate(NAMES)}
